@@ -48,6 +48,7 @@ type ExploreStats struct {
 	Violations   []Found
 	MaxPreempt   int
 	SleepBlocked int // executions cut by the sleep sets (redundant prefixes)
+	Diverged     bool // executions were not reproducible (global state survives between executions): the search was abandoned
 	SelectSeen   bool // mode A was abandoned because the program executes a select statement
 }
 
@@ -98,6 +99,10 @@ func exploreOnce(prog Program, opts ExploreOpts) ExploreStats {
 		stack = stack[:len(stack)-1]
 		threads, judge := prog()
 		ex := RunOnce(cfg, it.prefix, threads)
+		if ex.Diverged {
+			stats.Diverged = true
+			stats.Complete = false
+		}
 		stats.Executions++
 		stats.Points += len(ex.Points)
 		if len(ex.Points) > stats.MaxPoints {
@@ -194,6 +199,10 @@ func exploreSleep(prog Program, opts ExploreOpts) ExploreStats {
 		threads, judge := prog()
 		cfg := Config{Elide: opts.Elide, Race: opts.Race, FuelTotal: opts.FuelTotal, Sleep: true, Installs: it.installs}
 		ex := RunOnce(cfg, it.prefix, threads)
+		if ex.Diverged {
+			stats.Diverged = true
+			stats.Complete = false
+		}
 		stats.Executions++
 		stats.Points += len(ex.Points)
 		if len(ex.Points) > stats.MaxPoints {
@@ -315,8 +324,16 @@ func exploreDPOR(prog Program, opts ExploreOpts) ExploreStats {
 			stats.Complete = false
 			return stats
 		}
-		if len(ex.Points) < len(nodes) {
-			panic(MachineryError{"replay diverged: the execution has fewer choice points than the path it was to follow"})
+		if len(ex.Points) < len(nodes) || ex.Diverged {
+			// not reproducible: judge this execution (it is a real one) and give up the systematic search
+			if !ex.SleepBlocked {
+				if what := judge(ex); len(what) > 0 {
+					stats.Violations = append(stats.Violations, Found{Choices: append([]int(nil), ex.Choices...), What: what, Exec: ex})
+				}
+			}
+			stats.Diverged = true
+			stats.Complete = false
+			return stats
 		}
 		// extend the path with the nodes discovered by this run
 		for k := len(nodes); k < len(ex.Points); k++ {
